@@ -428,6 +428,11 @@ func TestC06(t *testing.T) {
 		for _, e := range c06EvalExprs {
 			explore(t, c06Case{Kind: "eval", Src: e, Store: map[string]string{"y": "3"}}, nil, false)
 		}
+		// a variable that holds no number, in an operand that is reduced before
+		// the end of the expression, with something observable behind it
+		for _, e := range []string{"x * 2 + 1", "(x + 1) + 08", "x * 2 + (y = 3)", "y + 7 + x << -1", "(x + 1) )", "x + 1 ? 2 : (y = 4)", "-x * (y += 1) + 09"} {
+			explore(t, c06Case{Kind: "eval", Src: e, Store: map[string]string{"x": "abc", "y": "3"}}, nil, false)
+		}
 	}
 
 	prop := func(rt *rapid.T) {
